@@ -334,6 +334,9 @@ func (d *DEval) expr(f *Func, e ast.Expr, env map[types.Object]dval) (dval, bool
 	info := f.Info()
 	switch x := ast.Unparen(e).(type) {
 	case *ast.BasicLit:
+		if x.Kind == token.INT {
+			return dval{scalar: true, s: x.Value}, false
+		}
 		return dval{scalar: true, s: "lit:" + x.Value}, false
 	case *ast.Ident:
 		switch x.Name {
@@ -478,6 +481,16 @@ func (d *DEval) expr(f *Func, e ast.Expr, env map[types.Object]dval) (dval, bool
 		}
 		return dval{s: base.s + "[" + d.scal(idx) + "]"}, false
 	case *ast.CallExpr:
+		// len(x) of an input is itself an input: "len(<path>)"
+		if Builtin("len")(info, x) && len(x.Args) == 1 {
+			v, p := d.expr(f, x.Args[0], env)
+			if p {
+				return dval{}, true
+			}
+			if !v.scalar {
+				return dval{s: "len(" + v.s + ")"}, false
+			}
+		}
 		fn := Callee(info, x)
 		// opaque functions: their result is an input of the table
 		if path, ok := d.Opaque[FName(fn)]; ok {
